@@ -57,6 +57,60 @@ class SurrogatesAdapter:
                 ("twin_surrogates", lambda o: o.twin_surrogates(2, 1, .5, 3))]
 
 
+class InteractingAdapter(c01.NetAdapter):
+    """InteractingNetworks: the node-list measures (cross / internal, plain
+    and n.s.i.) next to the whole-network measures they share memoised
+    arrays with (path lengths, adjacency); sparse graphs so that unconnected
+    pairs and isolated nodes occur."""
+    name = "InteractingNetworks"
+    BASE = ["path_lengths", "average_path_length", "nsi_average_path_length",
+            "global_efficiency", "nsi_global_efficiency", "closeness",
+            "nsi_closeness", "nsi_harmonic_closeness", "diameter", "degree",
+            "nsi_degree", "local_clustering", "betweenness"]
+
+    def cls(self):
+        from pyunicorn.core.interacting_networks import InteractingNetworks
+        return InteractingNetworks
+
+    def make(self, rng):
+        spec = super().make(rng)
+        n = len(spec["A"])
+        if rng.random() < 0.6:
+            spec["A"] = graphs.random_graph(rng, n, 0.1 + 0.25 * rng.random(),
+                                            spec["directed"])
+            spec["attrs"] = {}
+        nodes = list(range(n))
+        rng.shuffle(nodes)
+        k = rng.randint(1, n - 1)
+        spec["l1"] = sorted(nodes[:k])
+        spec["l2"] = sorted(nodes[k:k + rng.randint(1, n - k)])
+        return spec
+
+    def queries(self, obj):
+        import c04
+        listq = c04.interacting_queries()
+        taken = {n for n, _ in listq}     # some names are redefined with lists
+        qs = [(n, (lambda o, n=n: getattr(o, n)())) for n in self.BASE
+              if hasattr(obj, n) and n not in taken]
+        for name, arity in listq:
+            if "betweenness" in name and "nsi" in name:
+                continue
+            if arity == 2:
+                qs.append((name, lambda o, name=name: getattr(o, name)(
+                    list(o._verif_lists[0]), list(o._verif_lists[1]))))
+            else:
+                qs.append((name, lambda o, name=name: getattr(o, name)(
+                    list(o._verif_lists[0]))))
+        qs += [("adjacency", lambda o: o.adjacency),
+               ("node_weights", lambda o: o.node_weights)]
+        return qs
+
+    def build(self, spec):
+        net = super().build(spec)
+        net._verif_lists = (spec["l1"], spec["l2"])
+        return net
+
+
 class CouplingAdapter:
     name = "CouplingAnalysis"
 
@@ -548,7 +602,8 @@ def check_shared_data(ctx):
 
 
 def run_all(ctx):
-    for AdC in list(c01.ADAPTERS) + [SurrogatesAdapter, CouplingAdapter]:
+    for AdC in [a for a in c01.ADAPTERS if a.name != "Surrogates"] + [
+            SurrogatesAdapter, CouplingAdapter, InteractingAdapter]:
         for _ in range(ctx.n(2, 8)):
             check_sequences(ctx, AdC())
     for _ in range(ctx.n(2, 10)):
